@@ -67,3 +67,104 @@ def enum_return_table(fn):
             tbl[v] = vals
         res.append({"switch": sw, "table": tbl})
     return res
+
+
+def _arm_values(fn, tgt, limit=4):
+    """constants / unit variants assigned on the straight-line chain starting at tgt"""
+    vals = []
+    for b in straight_line(fn, tgt, limit):
+        for s in fn.stmts(b):
+            if s[0] != "a":
+                continue
+            rv = s[2]
+            if rv[0] == "use" and "p" not in rv[1]:
+                if "v" in rv[1]:
+                    vals.append(("int", rv[1]["v"], rv[1].get("def")))
+                elif "bytes" in rv[1]:
+                    vals.append(("bytes", bytes.fromhex(rv[1]["bytes"]), rv[1].get("def")))
+                elif "def" in rv[1]:
+                    vals.append(("def", rv[1]["def"], rv[1]["def"]))
+            elif rv[0] == "agg" and rv[1] == "adt":
+                vals.append(("variant", rv[3], rv[2]))
+        if len(fn.preds()[b]) > 1 and b != tgt:
+            break
+    return vals
+
+
+def enum_to_const(fn):
+    """`match enum { V => CONST }` : list of {variant: value} (one per discriminant switch)"""
+    out = []
+    for bi in sorted(fn.reachable_blocks()):
+        sv = fn.switch_variants(bi)
+        if not sv:
+            continue
+        tbl = {}
+        for tgt, names in sv["edges"].items():
+            vs = [v for v in _arm_values(fn, tgt) if v[0] in ("int", "bytes", "def")]
+            for n in names:
+                tbl[n] = vs[0][1] if vs else None
+        out.append({"block": bi, "table": tbl, "edges": sv["edges"]})
+    return out
+
+
+def const_to_enum(fn, min_arms=1):
+    """`match int { CONST => V }` : list of ({int: variant}, otherwise_variant_or_None)"""
+    out = []
+    for sw in switches(fn, min_arms):
+        if fn.switch_variants(sw["block"]):
+            continue
+        tbl = {}
+        for v, tgt in sw["arms"].items():
+            vs = [x for x in _arm_values(fn, tgt) if x[0] == "variant"]
+            tbl[v] = vs[0][1] if vs else None
+        ow = [x for x in _arm_values(fn, sw["otherwise"]) if x[0] == "variant"]
+        out.append({"block": sw["block"], "table": tbl, "otherwise": ow[0][1] if ow else None, "otherwise_block": sw["otherwise"]})
+    return out
+
+
+_NORM = {"AddWithOverflow": "Add", "AddUnchecked": "Add", "SubWithOverflow": "Sub", "SubUnchecked": "Sub", "MulWithOverflow": "Mul",
+         "MulUnchecked": "Mul", "ShlUnchecked": "Shl", "ShrUnchecked": "Shr"}
+
+
+def arith_signature(fn, ops=("Shl", "Shr", "BitAnd", "BitOr", "BitXor", "Add", "Sub", "Mul", "Div", "Rem", "Eq", "Ne", "Lt", "Le", "Gt", "Ge")):
+    """multiset of (binop, constant) pairs of a function, ignoring debug_assert expansions and overflow/bounds plumbing"""
+    from collections import Counter
+    sig = Counter()
+    for bi, si, pl, rv, ln, mc in fn.assigns():
+        if bi not in fn.reachable_blocks() or fn.is_cleanup(bi):
+            continue
+        if any(m.startswith("debug_assert") for m in mc):
+            continue
+        if rv[0] == "bin":
+            op = _NORM.get(rv[1], rv[1])
+            if op not in ops:
+                continue
+            for side, o in (("l", rv[2]), ("r", rv[3])):
+                if "p" not in o and isinstance(o.get("v"), int):
+                    # shifts emit `Lt(shift, bits)` checks in debug builds: macros empty, constant is the bit width; keep only user ops
+                    sig[(op, o["v"], side if op in ("Shl", "Shr", "Sub", "Div", "Rem", "Lt", "Le", "Gt", "Ge") else "")] += 1
+    return sig
+
+
+def exclusive_arm_blocks(fn, sw):
+    """for each arm value: blocks reachable from its target that are not reachable from any other arm target or the otherwise target"""
+    tg = dict(sw["arms"])
+    reach = {v: fn.reach_from(t) for v, t in tg.items()}
+    ow = fn.reach_from(sw["otherwise"])
+    out = {}
+    for v in tg:
+        others = set(ow) if sw["otherwise"] != tg[v] else set()
+        for w in tg:
+            if w != v and tg[w] != tg[v]:
+                others |= reach[w]
+        out[v] = reach[v] - others
+    return out
+
+
+def variants_built(fn, blocks, adt_pat):
+    import re as _re
+    out = set()
+    for bi, si, pl, rv, ln, mc in fn.assigns():
+        if bi in blocks and rv[0] == "agg" and rv[1] == "adt" and _re.search(adt_pat, rv[2]):
+            out.add(rv[3])
+    return out
